@@ -153,7 +153,8 @@ def _cmd_concrete(n, picks, channel):
         params['listfile'] = io.StringIO('\n'.join(names) + '\n')
     else:
         params['sigfile'] = 't.gs'
-        labels = [f'S:{l}' for l in labels]
+        # stored IDs are used verbatim as labels, also when they look like paths or file names
+        labels = [f'S:{nm}' for nm in names]
 
     def load_signatures(path, **kw):
         return AnnotatedSignatures(SignatureList(sigs, DEFAULT_KMERSPEC, dtype=np.dtype('u4')), labels, SignaturesMeta())
